@@ -304,7 +304,7 @@ type encOp struct {
 	us   []uint64 // packed
 	is   []int64
 	bs   []bool
-	fail bool     // nested: the nested marshal fails
+	fail bool // nested: the nested marshal fails
 	// how the implementation is called
 	call func(e *csproto.Encoder) error
 }
